@@ -336,9 +336,16 @@ def run(ctx):
     quantile_family(ctx)
     attr_histories(ctx)
     nodata_argument(ctx)
+    from . import spell_common
+    spell_common.run(ctx, "C07")
+
 
 
 def replay(sub, case, p):
+    if case.get("kind") == "spelling":
+        from . import spell_common
+        spell_common.run(p, "C07")
+        return
     if case["kind"] == "spi":
         idx = np.asarray([case["idx"]], dtype=np.int8)
         letters = case["letters"]
